@@ -461,7 +461,12 @@ def snapshot(directory: str, keep_content: bool = False) -> Dict[str, Any]:
 
 def _child(inv: Dict[str, Any], hooks: Optional[Callable[[Dict[str, Any]], None]]) -> Dict[str, Any]:
     import logging
-    logging.disable(logging.CRITICAL)
+    if inv.get("logging"):
+        # antiSMASH sets up its own logging (verbosity is part of the scenario); nobody reads the console
+        sys.stderr = open(os.devnull, "w", encoding="utf-8")  # pylint: disable=consider-using-with
+        logging.disable(logging.NOTSET)     # (the forking process may have had logging switched off)
+    else:
+        logging.disable(logging.CRITICAL)
     import antismash.main as main
     from antismash.config import build_config
     _install(inv)
